@@ -360,9 +360,38 @@ def rule_R2(ctx, prj, typestate=True):
         ctx.viol("R2", "unfold_scopes/order", site, f"unfold_scopes emits {events} per scope instead of the pre-order [elem, rec]: nested functions are listed before their parent or not exactly once")
 
 
-def rule_R3(ctx, prj):
-    ctx.rule("R3", "a header's name token is drawn from the tokens of the same match whose start/end form its range, through "
-                   "a filter that is exactly is_name()", floor=1)
+def rule_R3_both(ctx, prj):
+    """R3 by evaluation of get_headers through the repo's engine; the syntactic reading of the Header(...) construction is its complement"""
+    from ..absint import PyRaise, Unknown
+    from .c14 import headers_evaluated
+    ctx.rule("R3", "a header's name token is drawn from the tokens of the same match whose start/end form its range: get_headers "
+                   "interpreted through the engine on `x f ( a ) { y g ( ) ; h ( )` names f, g, h (each the first name of its own "
+                   "match, never the name before it or a parameter) with ranges (start, exclusive end) of those matches; "
+                   "complemented by the syntactic reading of the Header(...) construction", floor=1)
+    gh = prj.func(f"{SCU}:get_headers")
+    decided = False
+    try:
+        res = headers_evaluated(prj)
+        decided = True
+        for with_follow, got, want in res:
+            what = "with the follow-up `{`" if with_follow else "without follow-up"
+            if got != want:
+                decided = False
+                ctx.viol("R3", "get_headers/name-token", gh.site(), f"get_headers {what} gives (name, start, end) {got}; required {want}: the name is not the first name "
+                         f"token of the match whose start and end form the range")
+            else:
+                ctx.ok("R3", gh.site(), f"get_headers {what}: {got}")
+    except (Unknown, PyRaise, AnalysisError, AttributeError, KeyError) as e:
+        ctx.info(f"R3: get_headers not evaluable through the engine ({type(e).__name__}: {e}); the construction is read syntactically")
+    if any(v.rule == "R3" for v in ctx.violations):
+        return
+    ctx.complement("R3", lambda: rule_R3(ctx, prj, declare=False), decided, demote=True, by="the evaluated get_headers (R3)")
+
+
+def rule_R3(ctx, prj, declare=True):
+    if declare:
+        ctx.rule("R3", "a header's name token is drawn from the tokens of the same match whose start/end form its range, through "
+                       "a filter that is exactly is_name()", floor=1)
     gh0 = prj.func(f"{SCU}:get_headers")
     found = [(f, c) for f in with_helpers(prj, gh0) for c in f.calls() if attr_chain(c.func) == "Header" and len(c.args) + len(c.keywords) == 2]
     if not found:
@@ -428,4 +457,4 @@ def run(ctx, prj: Project):
     else:
         rule_R2(ctx, prj, typestate=False)       # the sort key is decided symbolically (all positions), whatever the pipeline run shows
         ctx.floors["R2"] = 1
-    rule_R3(ctx, prj)      # get_headers builds the Header itself: not part of the evaluated pipeline (the language object is a stub)
+    rule_R3_both(ctx, prj)      # get_headers builds the Header itself: not part of the evaluated pipeline (the language object is a stub)
